@@ -483,3 +483,78 @@ func sweepInsideCommit(c *common.Ctx, r *common.Rand) error {
 	checkStoredChain(c, filepath.Join(n.Dir, "dbs", "db"), uint64(pos.TXID), uint64(pos.PostApplyChecksum), "C09:sweep-inside-commit", "one commit later", rep)
 	return nil
 }
+
+// importDuringCommits: an import and an application connection at the same time. The import writes its transaction file
+// and replaces the database under the write lock, so a connection cannot commit in between; whatever order they end up
+// in, the log is one chain that ends at the position.
+func importDuringCommits(c *common.Ctx, r *common.Rand) error {
+	dir, err := os.MkdirTemp(c.OutDir, "c09i-")
+	if err != nil {
+		return err
+	}
+	defer os.RemoveAll(dir)
+	ros := &lfs.RecOS{}
+	n, err := lfs.Open(dir, true, func(s *litefs.Store) { s.OS = ros })
+	if err != nil {
+		return err
+	}
+	defer n.Close()
+	h := hist.NewOn(c, r.Fork(), hist.Config{PageSize: 512}, n.Store, n.Exits, "db", nil, 0, false)
+	if err := commitN(h, 2); err != nil {
+		return err
+	}
+	db := n.Store.DB("db")
+	slipped := 0
+	hooked := false
+	ros.After = func(call lfs.OSCall) {
+		if call.Op != "IMPORTTOLTX" || hooked {
+			return
+		}
+		hooked = true
+		// the import has just renamed its file into the log: a connection tries to commit twice, back to back
+		old := lfs.BusyTimeout
+		lfs.BusyTimeout = 30 * time.Millisecond
+		defer func() { lfs.BusyTimeout = old }()
+		im, _ := lfs.ReadImage(filepath.Join(n.Dir, "dbs", "db"))
+		h2 := hist.NewOn(c, r.Fork(), hist.Config{PageSize: 512}, n.Store, n.Exits, "db", im, uint64(db.Pos().TXID), false)
+		for i := 0; i < 2; i++ {
+			for tries := 0; tries < 100; tries++ {
+				st := h2.GenStep()
+				if st.Op != "rtx" {
+					continue
+				}
+				st.Outcome, st.ToWAL, st.Spill = 0, false, 0
+				if ob := h2.Exec(st); ob.Captured && ob.Err == "" && ob.Panic == "" {
+					slipped++
+				}
+				break
+			}
+		}
+	}
+	im := &lfs.Image{PageSize: 512}
+	var body bytes.Buffer
+	for pg := uint32(1); pg <= 4; pg++ {
+		p := lfs.MakePage(512, pg, 600+uint64(pg), 4, false)
+		im.Pages = append(im.Pages, p)
+		body.Write(p)
+	}
+	ierr := db.Import(context.Background(), &body)
+	ros.After = nil
+	pos := db.Pos()
+	rep := map[string]any{"kind": "import-during-commits", "import_error": fmt.Sprint(ierr), "commits_inside_the_import": slipped}
+	c.Distinct("import-during-commits")
+	if ex := n.Exits(); len(ex) > 0 {
+		c.Evaluations++
+		c.Violate("C09:import-during-commits:exit", fmt.Sprintf("the node called Exit(%v)", ex), rep)
+		return nil
+	}
+	if !checkStoredChain(c, filepath.Join(n.Dir, "dbs", "db"), uint64(pos.TXID), uint64(pos.PostApplyChecksum), "C09:import-during-commits", fmt.Sprintf("after an import with a connection trying to commit between the import's rename and the end of the import (%d of its commits went through)", slipped), rep) {
+		return nil
+	}
+	// and the image is the one the position names
+	if got, err := lfs.ReadImage(filepath.Join(n.Dir, "dbs", "db")); err == nil && len(got.Pages) > 0 && got.Checksum() != uint64(pos.PostApplyChecksum) {
+		c.Evaluations++
+		c.Violate("C09:import-during-commits:image", fmt.Sprintf("position %s, database checksums to %016x", pos, got.Checksum()), rep)
+	}
+	return nil
+}
